@@ -4,7 +4,8 @@ D=$(readlink -f "$1"); shift
 git -C /repo apply "$D/patch.diff" || exit 2
 for c in "$@"; do
   timeout 3000 /verif/vcheck $c --tier quick --no-evidence > /tmp/seedrun_$(basename $D)_$c.log 2>&1
-  echo "$c exit=$? $(grep -c '^VIOLATION' /tmp/seedrun_$(basename $D)_$c.log) violation line(s): $(grep -m1 'violated:' /tmp/seedrun_$(basename $D)_$c.log | cut -c1-220)"
+  rc=$?
+  echo "$c exit=$rc $(grep -c '^VIOLATION' /tmp/seedrun_$(basename $D)_$c.log) violation line(s): $(grep -m1 'violated:' /tmp/seedrun_$(basename $D)_$c.log | cut -c1-220)"
 done
 git -C /repo checkout -- .
 git -C /repo status --short | grep -v _build
